@@ -555,3 +555,56 @@ def dump(body, out=None):
             out.write("    DROP %s -> bb%d\n" % (fmt_place(body, t["place"]), t["target"]))
         else:
             out.write("    %s\n" % t["t"].upper())
+
+
+def deep_origins(body, op, _depth=0, _seen=None):
+    """Data-dependence closure: like Tracer.operand but descends through binary/unary operations,
+    non-transparent casts and aggregates, returning the leaf origins (calls, params, constants)."""
+    tr = tracer(body)
+    _seen = _seen if _seen is not None else set()
+    out = set()
+    for o in tr.operand(op):
+        if o.kind == "stmt":
+            if o.data in _seen or _depth > 12:
+                continue
+            _seen.add(o.data)
+            s = body.blocks[o.data[0]].stmts[o.data[1]]
+            rv = s["rvalue"]
+            subs = []
+            if rv["rv"] == "bin":
+                subs = [rv["a"], rv["b"]]
+            elif rv["rv"] == "un":
+                subs = [rv["a"]]
+            elif rv["rv"] in ("cast", "repeat"):
+                subs = [rv["op"]]
+            elif rv["rv"] == "agg":
+                subs = rv["ops"]
+            elif rv["rv"] == "discr":
+                subs = [{"k": "copy", "place": rv["place"]}]
+            if not subs:
+                out.add(o)
+            for sop in subs:
+                out |= deep_origins(body, sop, _depth + 1, _seen)
+        else:
+            out.add(o)
+    return out
+
+
+def ops_between(body, op, _depth=0, _seen=None):
+    """Names of the binary/unary operations on the data-dependence paths of `op` (for diagnostics/rules)."""
+    tr = tracer(body)
+    _seen = _seen if _seen is not None else set()
+    out = set()
+    for o in tr.operand(op):
+        if o.kind == "stmt" and o.data not in _seen and _depth <= 12:
+            _seen.add(o.data)
+            rv = body.blocks[o.data[0]].stmts[o.data[1]]["rvalue"]
+            if rv["rv"] == "bin":
+                out.add(rv["op"])
+                out |= ops_between(body, rv["a"], _depth + 1, _seen) | ops_between(body, rv["b"], _depth + 1, _seen)
+            elif rv["rv"] == "un":
+                out.add(rv["op"])
+                out |= ops_between(body, rv["a"], _depth + 1, _seen)
+            elif rv["rv"] == "cast":
+                out |= ops_between(body, rv["op"], _depth + 1, _seen)
+    return out
